@@ -227,6 +227,7 @@ MO = 'sedfitter/models.py'
 SO = 'sedfitter/source/source.py'
 
 MUST_FIRE = [
+    ('lower-limit penalty added as truth value x penalty (0 * inf is NaN at confidence 1)', [(FR, "        for j in np.where(valid == 2)[0]:\n            reset = model[:, j] < data[:, j]\n            chi2_array[:, j][reset] = -2. * np.log(1. - error[j])\n", "        for j in np.where(valid == 2)[0]:\n            reset = model[:, j] < data[:, j]\n            chi2_array[:, j] += reset * (-2. * np.log(1. - error[j]))\n")]),
     ('log-flux buffer inherits the caller dtype', [(SO, "log_flux = np.zeros(self.flux.shape, dtype=np.float64)", "log_flux = np.zeros_like(self.flux)")]),
     ('weight buffer created as integers', [(SO, "weight = np.zeros(self.valid.shape, dtype=np.float64)", "weight = np.zeros(self.valid.shape, dtype=int)")]),
     ('weight set for limits', [(SO, "        log_flux[r] = np.log10(self.flux[r])\n        log_error[r] = self.error[r]\n", "        log_flux[r] = np.log10(self.flux[r])\n        log_error[r] = self.error[r]\n        weight[r] = 1.\n")]),
@@ -249,6 +250,7 @@ MUST_FIRE = [
     ('upper limits treated like lower in chi2 mask', [(FR, "        for j in np.where(valid == 3)[0]:\n            reset = model[:, j] > data[:, j]", "        for j in np.where(valid >= 3)[0]:\n            reset = model[:, j] > data[:, j]")]),
 ]
 MUST_SILENT = [
+    ('lower-limit penalty selected with np.where', [(FR, "        for j in np.where(valid == 2)[0]:\n            reset = model[:, j] < data[:, j]\n            chi2_array[:, j][reset] = -2. * np.log(1. - error[j])\n", "        for j in np.where(valid == 2)[0]:\n            reset = model[:, j] < data[:, j]\n            chi2_array[:, j] = np.where(reset, -2. * np.log(1. - error[j]), chi2_array[:, j])\n")]),
     ('buffers created with zeros_like and an explicit float dtype', [(SO, "log_flux = np.zeros(self.flux.shape, dtype=np.float64)", "log_flux = np.zeros_like(self.flux, dtype=float)")]),
     ('buffers created with the default dtype', [(SO, "log_error = np.zeros(self.error.shape, dtype=np.float64)", "log_error = np.zeros(self.error.shape)")]),
     ('redundant flag-0 zeroing removed', [(FR, "        chi2_array[:, valid == 0] = 0.\n", "        pass\n")]),
